@@ -31,6 +31,8 @@ inductive Val where
   | obj (t : Nat) (id : Nat)
   | tuple (vs : List Val)
   | array (elt : Ty) (vs : List Val)
+  | derived (chain : List Nat) (s : Scalar) (v : Val)  -- a value of a user scalar: tag + base value
+  | enumv (n : Nat) (k : Nat)                          -- k-th label of enum n
   deriving Repr, Inhabited
 
 def isNumeric (s : Scalar) : Bool := numeric.contains s
@@ -40,10 +42,12 @@ def isOpaque (s : Scalar) : Bool := !isNumeric s && s != .str && s != .bool
 mutual
 /-- `v` inhabits `t` -/
 def hasTypeB : Val → Ty → Bool
-  | .num s _ _, .scalar s' => s == s' && isNumeric s
-  | .str _, .scalar s' => s' == .str
-  | .bool _, .scalar s' => s' == .bool
-  | .opaque s _, .scalar s' => s == s' && isOpaque s
+  | .num s _ _, .scalar s' => s' == .base s && isNumeric s
+  | .str _, .scalar s' => s' == .base .str
+  | .bool _, .scalar s' => s' == .base .bool
+  | .opaque s _, .scalar s' => s' == .base s && isOpaque s
+  | .derived c s v, .scalar s' => s' == .derived c s && hasTypeB v (.scalar (.base s))
+  | .enumv n _, .scalar s' => s' == .enum n
   | .obj t _, .obj t' => t == t'
   | .tuple vs, .tuple ts => hasTypeL vs ts
   | .array e vs, .array t => e == t && allHaveType vs t
@@ -63,10 +67,12 @@ def hasType (v : Val) (t : Ty) : Prop := hasTypeB v t = true
 mutual
 /-- the run-time type tag of a value -/
 def typeOf : Val → Ty
-  | .num s _ _ => .scalar s
-  | .str _ => .scalar .str
-  | .bool _ => .scalar .bool
-  | .opaque s _ => .scalar s
+  | .num s _ _ => .scalar (.base s)
+  | .str _ => .scalar (.base .str)
+  | .bool _ => .scalar (.base .bool)
+  | .opaque s _ => .scalar (.base s)
+  | .derived c s _ => .scalar (.derived c s)
+  | .enumv n _ => .scalar (.enum n)
   | .obj t _ => .obj t
   | .tuple vs => .tuple (typeOfL vs)
   | .array e _ => .array e
@@ -84,6 +90,8 @@ def Val.beq : Val → Val → Bool
   | .obj _ a, .obj _ b => a == b
   | .tuple as, .tuple bs => Val.beqL as bs
   | .array _ as, .array _ bs => Val.beqL as bs
+  | .derived _ _ a, .derived _ _ b => Val.beq a b
+  | .enumv _ a, .enumv _ b => a == b
   | _, _ => false
 def Val.beqL : List Val → List Val → Bool
   | [], [] => true
@@ -98,19 +106,34 @@ def Val.lt : Val → Val → Bool
   | .bool a, .bool b => !a && b
   | .opaque _ a, .opaque _ b => a < b
   | .obj _ a, .obj _ b => a < b
+  | .enumv _ a, .enumv _ b => a < b
   | _, _ => false
 
 /-! ## Conversions (implicit and explicit casts) -/
 
-mutual
-/-- value-level cast to type `t` (retagging; the payload is kept) -/
-def convVal : Ty → Val → Val
-  | .scalar s, .num s0 n d =>
+/-- the base value under the user-scalar tags -/
+def unwrap : Val → Val
+  | .derived _ _ v => unwrap v
+  | v => v
+
+/-- conversion of a base scalar value to the std scalar `s` (retagging; the payload is kept) -/
+def convScalar (s : Scalar) : Val → Val
+  | .num s0 n d =>
     if isNumeric s then .num s n d
     else if s == .str then .str (toString n ++ "/" ++ toString (d + 1))
     else .num s0 n d
-  | .scalar s, .bool b => if s == .str then .str (toString b) else .bool b
-  | .scalar s, .opaque s0 k => if isOpaque s then .opaque s k else .opaque s0 k
+  | .bool b => if s == .str then .str (toString b) else .bool b
+  | .opaque s0 k => if isOpaque s then .opaque s k else .opaque s0 k
+  | v => v
+
+mutual
+/-- value-level cast to type `t`.  To a std scalar: drop the user-scalar tags and convert.  To a
+    user scalar (explicit casts only): a value that already has that type is kept, anything else is
+    converted to the base and tagged (the constraint check is a run-time failure, not modelled). -/
+def convVal : Ty → Val → Val
+  | .scalar (.base s), v => convScalar s (unwrap v)
+  | .scalar (.derived c s), v =>
+    if hasTypeB v (.scalar (.derived c s)) then v else .derived c s (convScalar s (unwrap v))
   | .tuple ts, .tuple vs => .tuple (convValL ts vs)
   | .array t, .array _ vs => .array t (convAll t vs)
   | _, v => v
@@ -131,17 +154,42 @@ def castCands (t : Scalar) : List Callable :=
 /-- `<b>e` is accepted for `e : a` (`casts.py::_find_cast`: overload resolution over the casts
     into `b`, so the source may first be implicitly cast to the cast's declared source type) -/
 def castableAnyS (a b : Scalar) : Bool :=
-  a == b || (findCallable (castCands b) [.scalar a, .scalar b]).length == 1
+  a == b || (findCallable (castCands b) [.scalar (.base a), .scalar (.base b)]).length == 1
 
 /-- the conversions `convVal` implements without a run-time failure -/
 def safeCastS (a b : Scalar) : Bool :=
   a == b || castableS a b || (isNumeric a && isNumeric b) ||
   (b == .str && (isNumeric a || a == .bool))
 
+/-- `a` converts to `b` without a run-time check: identical, or `b` is a std scalar the topmost
+    concrete base of `a` is implicitly castable to.  (A std scalar does NOT convert to a user scalar
+    derived from it, although `implicitly_castable_to` says yes: that needs the constraint check.) -/
+def convertibleSc (a b : Sc) : Bool :=
+  a == b || match a.top, b with
+    | some x, .base y => castableS x y
+    | _, _ => false
+
+mutual
+/-- the conversions the evaluator performs on arguments: element-wise `convertibleSc` -/
+def convertible : Ty → Ty → Bool
+  | .scalar a, .scalar b => convertibleSc a b
+  | .obj a, .obj b => a == b
+  | .tuple as, .tuple bs => convertibleL as bs
+  | .array a, .array b => convertible a b
+  | _, _ => false
+def convertibleL : List Ty → List Ty → Bool
+  | [], [] => true
+  | a :: as, b :: bs => convertible a b && convertibleL as bs
+  | _, _ => false
+end
+
 mutual
 /-- `<t>e` is accepted for `e : a` and is inside the calculus -/
 def canCast : Ty → Ty → Bool
-  | .scalar a, .scalar b => castableAnyS a b && safeCastS a b
+  | .scalar a, .scalar b =>
+    a == b || match a.top, b.top with
+      | some x, some y => castableAnyS x y && safeCastS x y
+      | _, _ => false
   | .obj a, .obj b => a == b
   | .tuple as, .tuple bs => canCastL as bs
   | .array a, .array b => canCast a b
@@ -203,12 +251,12 @@ inductive Lit where
   deriving Repr, Inhabited
 
 def Lit.ty : Lit → Ty
-  | .int64 _ => .scalar .int64
-  | .float64 _ _ => .scalar .float64
-  | .str _ => .scalar .str
-  | .bool _ => .scalar .bool
-  | .bigint _ => .scalar .bigint
-  | .decimal _ _ => .scalar .decimal
+  | .int64 _ => .scalar (.base .int64)
+  | .float64 _ _ => .scalar (.base .float64)
+  | .str _ => .scalar (.base .str)
+  | .bool _ => .scalar (.base .bool)
+  | .bigint _ => .scalar (.base .bigint)
+  | .decimal _ _ => .scalar (.base .decimal)
 
 def Lit.val : Lit → Val
   | .int64 n => .num .int64 n 0
@@ -285,29 +333,29 @@ def modelled : List Fn :=
     arguments have been converted to -/
 def primRet (f : Fn) (ptys : List Ty) : Option Ty :=
   match f, ptys with
-  | .op_plus, [.scalar a, .scalar b] | .op_minus, [.scalar a, .scalar b]
-  | .op_times, [.scalar a, .scalar b] | .op_div, [.scalar a, .scalar b]
-  | .op_floordiv, [.scalar a, .scalar b] | .op_mod, [.scalar a, .scalar b]
-  | .op_pow, [.scalar a, .scalar b] =>
-    if a == b then (arithResult f a).map .scalar else none
-  | .op_plus, [.scalar a] | .op_minus, [.scalar a] =>
-    if isNumeric a then some (.scalar a) else none
+  | .op_plus, [.scalar (.base a), .scalar (.base b)] | .op_minus, [.scalar (.base a), .scalar (.base b)]
+  | .op_times, [.scalar (.base a), .scalar (.base b)] | .op_div, [.scalar (.base a), .scalar (.base b)]
+  | .op_floordiv, [.scalar (.base a), .scalar (.base b)] | .op_mod, [.scalar (.base a), .scalar (.base b)]
+  | .op_pow, [.scalar (.base a), .scalar (.base b)] =>
+    if a == b then (arithResult f a).map fun r => .scalar (.base r) else none
+  | .op_plus, [.scalar (.base a)] | .op_minus, [.scalar (.base a)] =>
+    if isNumeric a then some (.scalar (.base a)) else none
   | .op_eq, [_, _] | .op_ne, [_, _] | .op_lt, [_, _] | .op_le, [_, _] | .op_gt, [_, _]
   | .op_ge, [_, _] | .op_opteq, [_, _] | .op_optne, [_, _] | .op_and, [_, _] | .op_or, [_, _]
   | .op_in, [_, _] | .op_not_in, [_, _] | .op_not, [_] | .op_exists, [_]
-  | .fn_all, [_] | .fn_any, [_] => some (.scalar .bool)
+  | .fn_all, [_] | .fn_any, [_] => some (.scalar (.base .bool))
   | .op_concat, [a, b] | .op_union, [a, b] | .op_coalesce, [a, b] =>
     if a == b then some a else none
   | .op_except, [a, _] | .op_intersect, [a, _] => some a
   | .op_if, [a, _, b] => if a == b then some a else none
   | .op_distinct, [a] | .fn_min, [a] | .fn_max, [a] | .fn_math_abs, [a] => some a
-  | .fn_count, [_] | .fn_len, [_] => some (.scalar .int64)
-  | .fn_sum, [.scalar a] => (sumResult a).map .scalar
-  | .fn_math_mean, [.scalar a] => (meanResult a).map .scalar
+  | .fn_count, [_] | .fn_len, [_] => some (.scalar (.base .int64))
+  | .fn_sum, [.scalar (.base a)] => (sumResult a).map fun r => .scalar (.base r)
+  | .fn_math_mean, [.scalar (.base a)] => (meanResult a).map fun r => .scalar (.base r)
   | .fn_array_agg, [a] => if a.isArray then none else some (.array a)
   | .fn_array_unpack, [.array a] => some a
-  | .fn_enumerate, [a] => some (.tuple [.scalar .int64, a])
-  | .fn_str_lower, [_] | .fn_str_upper, [_] => some (.scalar .str)
+  | .fn_enumerate, [a] => some (.tuple [.scalar (.base .int64), a])
+  | .fn_str_lower, [_] | .fn_str_upper, [_] => some (.scalar (.base .str))
   | _, _ => none
 
 /-! ## Type inference -/
@@ -349,7 +397,7 @@ def inferType (sch : Schema) : List Ty → Q → Option Ty
     match inferType sch Γ src with
     | some τ =>
       match inferType sch (τ :: Γ) cond with
-      | some (.scalar .bool) => some τ
+      | some (.scalar (.base .bool)) => some τ
       | _ => none
     | none => none
   | _, .objs t => if t < sch.length then some (.obj t) else none
@@ -390,7 +438,7 @@ def inCalc (sch : Schema) : List Ty → Q → Bool
       | .ok bd =>
         (match primRet f bd.ptys with
          | some r => r == bd.ret
-         | none => false) && implCastableL ts bd.ptys
+         | none => false) && convertibleL ts bd.ptys
       | _ => true
     | none => true
   | Γ, .cast _ q => inCalc sch Γ q
@@ -558,12 +606,12 @@ def prim (f : Fn) (ptys : List Ty) (bags : List (List Val)) : List Val :=
     | _ => []
   | .fn_enumerate, [a] => enumFrom 0 a
   | .fn_sum, [a] => match ptys with
-    | [.scalar s] => match sumResult s with
+    | [.scalar (.base s)] => match sumResult s with
       | some r => let x := sumRat a; [.num r x.n x.d]
       | none => []
     | _ => []
   | .fn_math_mean, [a] => match ptys with
-    | [.scalar s] => match meanResult s, a with
+    | [.scalar (.base s)] => match meanResult s, a with
       | some r, _ :: _ =>
         let x := sumRat a
         match mkRat x.n ((x.d + 1 : Int) * a.length) with
